@@ -18,9 +18,12 @@ VARIABLES begun, df, units,      \* the open file: DONT_FRAGMENT, units appended
           files,                 \* ended files: [units, nblk, frag]
           manual,                \* accepted manual blocks (units), in order
           inFileManual,          \* ghost: a manual block was accepted while a file was open
+          stats,                 \* sqfs_block_processor_get_stats: units read by append, data blocks handed to the writer (full blocks as they fill up,
+                                 \* the short last block of a DONT_FRAGMENT file, manual blocks), files that ended in a tail fragment
           log                    \* <<op, result>>
-vars == <<begun, df, units, files, manual, inFileManual, log>>
+vars == <<begun, df, units, files, manual, inFileManual, stats, log>>
 Init == begun = FALSE /\ df = FALSE /\ units = 0 /\ files = <<>> /\ manual = <<>> /\ inFileManual = FALSE /\ log = <<>>
+        /\ stats = [input |-> 0, dblk |-> 0, frags |-> 0]
 
 Result(op) ==
   CASE op \in {"B0", "BF", "BX"} -> (IF begun THEN "SEQUENCE" ELSE IF op = "BX" THEN "UNSUPPORTED" ELSE "OK")
@@ -31,6 +34,11 @@ Ended == [units |-> units, nblk |-> IF df THEN (units + 3) \div 4 ELSE units \di
 Call(op) ==
   /\ Len(log) < MaxCalls
   /\ log' = Append(log, <<op, Result(op)>>)
+  /\ stats' = IF Result(op) # "OK" THEN stats
+               ELSE CASE op \in {"A1", "A4", "A5"} -> [stats EXCEPT !.input = @ + Units(op), !.dblk = @ + ((units + Units(op)) \div 4) - (units \div 4)]
+                      [] op = "E" -> [stats EXCEPT !.dblk = @ + (IF df /\ units % 4 # 0 THEN 1 ELSE 0), !.frags = @ + (IF ~df /\ units % 4 # 0 THEN 1 ELSE 0)]
+                      [] op \in {"M1", "M4"} -> [stats EXCEPT !.dblk = @ + 1]
+                      [] OTHER -> stats
   /\ IF Result(op) # "OK" THEN UNCHANGED <<begun, df, units, files, manual, inFileManual>>
      ELSE CASE op \in {"B0", "BF"} -> begun' = TRUE /\ df' = (op = "BF") /\ units' = 0 /\ UNCHANGED <<files, manual, inFileManual>>
             [] op \in {"A1", "A4", "A5"} -> units' = units + Units(op) /\ UNCHANGED <<begun, df, files, manual, inFileManual>>
@@ -48,6 +56,8 @@ FilesAreEnds == Len(files) = Count(OkEnd)
 (* the data blocks of one file are contiguous (C03): nothing else is written while a file is open *)
 NothingBetweenBlocks == ~inFileManual
 (* every unit accepted by append between begin and end is in exactly one place *)
+(* the counters agree with what was stored: every data block of an ended file was counted *)
+StatsCoverFiles == stats.dblk >= Len(manual) /\ stats.frags <= Len(files)
 UnitsAccounted == \A i \in 1..Len(files) : LET f == files[i]  r == (f.units % 4)  full == IF f.frag \/ r = 0 THEN f.nblk ELSE f.nblk - 1 IN f.units = (4 * full) + r
-EmitOK == (Emit /\ Len(log) = MaxCalls) => PrintT(<<"RESULT", ToJson([log |-> log, files |-> files, manual |-> manual])>>)
+EmitOK == (Emit /\ Len(log) = MaxCalls) => PrintT(<<"RESULT", ToJson([log |-> log, files |-> files, manual |-> manual, stats |-> stats])>>)
 =============================================================================
